@@ -343,6 +343,13 @@ def run_read(shape, cid, run, keep=None, prepared=None, release=False):
                 exc = project_error(shape, error, nrows=len(table["rows"]))
             if reader is not None:
                 acc, rej = reader.accepted_rows_count, reader.rejected_rows_count
+                handle = (reader, getattr(reader, "_source_data_stream_or_path", source))
+                # "When called a second time, do nothing": the with block has closed the reader, whatever the end checks
+                # said; extra verdict calls show up in the call log (C20), an error here is a problem of its own
+                try:
+                    reader.close()
+                except Exception as error:  # noqa
+                    messages.append("close() called once more on the closed reader raised %s: %s" % (type(error).__name__, error))
         else:
             reader = prepared or validio.Reader(cid, source, on_error=mode, validate_until=limit)
             handle = (reader, getattr(reader, "_source_data_stream_or_path", source))
